@@ -92,6 +92,17 @@ def check_setmove(res, P):
                     ch = flow.origin_chain(sub[2][0])
                     if ch and ch[1] and ch[1][-1] in SETS:
                         moved_from = ch[1][-1]
+            if moved_from is None:
+                # the same move spelled with the boolean API: `if self.X.remove(pid) { self.Y.insert(pid.clone()) }`
+                vch = flow.origin_chain(val)
+                for fact in facts_at(f, bi, kill=True):
+                    for fop, l, r in fact.oriented():
+                        if l[0] == "call" and strip_generics(l[1]).endswith("HashSet::remove") and r[0] == "const" and len(l[2]) > 1 \
+                                and ((fop == "Ne" and int(r[1]) == 0) or (fop == "Eq" and int(r[1]) == 1)):
+                            ch = flow.origin_chain(l[2][0])
+                            kch = flow.origin_chain(l[2][1])
+                            if ch and ch[1] and ch[1][-1] in SETS and kch is not None and vch is not None and kch == vch:
+                                moved_from = ch[1][-1]
             if moved_from is not None:
                 if moved_from == "banned_peers":
                     res.violation(key, "%s moves a peer out of banned_peers into %s: a ban is undone" % (f.name, a), where="%s:%s" % (f.file, t["s"][0]), rule="R-SETMOVE")
@@ -122,15 +133,17 @@ def check_setmove(res, P):
                               where="%s:%s" % (f.file, t["s"][0]), rule="R-SETMOVE")
             else:
                 res.ok(key, "R-SETMOVE", "absence from the other three sets evidenced by remove/take or negative contains guards")
-    res.floor("set inserts (R-SETMOVE)", n, 5)
+    res.floor("set inserts (R-SETMOVE)", n, 3)   # 5 today; promote_* / ban / demote may share helpers
 
 
 def _limit_guard_at(f, bb, setname):
     rx = re.compile(LIMIT_FN[setname])
     for fact in facts_at(f, bb, kill=True):
         for op, l, r in fact.oriented():
-            if l[0] == "call" and rx.search(strip_generics(l[1])) and r[0] == "const" and int(r[1]) == 0 and op in ("Gt", "Ne"):
-                return True
+            if l[0] == "call" and rx.search(strip_generics(l[1])) and r[0] == "const":
+                c = int(r[1])
+                if (op in ("Gt", "Ne") and c == 0) or (op == "Gt" and c >= 0) or (op == "Ge" and c >= 1):
+                    return True
     return False
 
 
@@ -158,7 +171,7 @@ def check_limits(res, P, closure):
             res.violation(key, "%s inserts into %s without a dominating %s > 0 test, here or at its call sites: the set can exceed its configured limit "
                           "(and the unchecked `max - len` subtraction then underflows)" % (f.name, a, LIMIT_FN[a]),
                           where="%s:%s" % (f.file, t["s"][0]), rule="R-LIMIT")
-    res.floor("limit-relevant inserts", n, 3)
+    res.floor("limit-relevant inserts", n, 2)   # 3 today
     return ok_all
 
 
@@ -217,14 +230,17 @@ def check_tag_writes(res, P):
                 res.ok(key, "R-TAG", "Cold never enables a connection (see needs_connection table)")
                 continue
             want = TAG_SET[v]
-            ok = any(op == "insert" and a == want and (bj == bi or flow.dominates(f, bj, bi)) for bj, t, op, a in set_ops(f))
+            rets = f.return_blocks()
+            ok = any(op == "insert" and a == want and (bj == bi or flow.dominates(f, bj, bi)
+                                                       or not any(f.can_reach(bi, r_, avoid=(bj,)) for r_ in rets))
+                     for bj, t, op, a in set_ops(f))
             if ok:
-                res.ok(key, "R-TAG", "tag %s written after inserting the peer into %s on the same path" % (v, want))
+                res.ok(key, "R-TAG", "tag %s written on a path that always inserts the peer into %s (before or after the write)" % (v, want))
             else:
                 res.violation(key, "tag %s is written in %s without inserting the peer into %s on that path: tag and peer sets diverge "
                               "(a ban by tag alone is undone by the next promotion pass; a Warm/Hot tag alone bypasses the limits)" % (v, f.path, want),
                               where="%s:%s" % (f.file, f.line), rule="R-TAG")
-    res.floor("promotion tag writes", n, 6)
+    res.floor("promotion tag writes", n, 4)   # 9 today
 
 
 def check_connect_table(res, P):
